@@ -60,7 +60,6 @@ type VerifC03Step struct {
 }
 
 func (d *VerifVoter) c03run(f func()) (st VerifC03Step) {
-	base := runtime.NumGoroutine()
 	d.DB.Puts = 0
 	d.DB.PutLog = d.DB.PutLog[:0]
 	d.DB.armedAt = 0
@@ -96,7 +95,9 @@ func (d *VerifVoter) c03run(f func()) (st VerifC03Step) {
 			continue
 		default:
 		}
-		if runtime.NumGoroutine() <= base {
+		// quiescence by goroutine stacks (verif_hooks_c02.go): receive until no goroutine is inside TypeMux.AsyncPost;
+		// a goroutine COUNT can be disturbed by unrelated goroutines coming and going and end the drain one event early
+		if !verifPostsInFlight() {
 			break
 		}
 		runtime.Gosched()
